@@ -1,0 +1,18 @@
+//go:build verif
+
+package forward
+
+// Contracts for govc (see /verif/DESIGN.md).  Comment-only file.
+
+//@ import dns github.com/miekg/dns
+
+// C06: an upstream reply is decoded from the bytes read for it only.  The
+// buffer was used to pack the request before (stamped == 0: none of its bytes
+// belongs to the reply yet).
+//
+//@ func (*UpstreamPlain).readMsg
+//@   property C06
+//@   requires conn != nil && off(buf) == 0 && stamped[arr(buf)] == 0
+//@   requires network == NetworkTCP ==> cap(buf) >= 65535
+//@   modifies elems(buf), stamped[arr(buf)], allcells(uint16)
+//@   ensures r1 == nil ==> r0 != nil
